@@ -23,6 +23,9 @@ type UnitSpec struct {
 	// Extra: non-slice NAL units of a video frame, in order: 'a' access unit delimiter, 'p' in-band parameter sets
 	// (those of the sequence header in force), 's' SEI in front of the slices; 'x' a trailing NAL (HEVC suffix SEI).
 	Extra string `json:"extra,omitempty"`
+	// Tiny: the message is only the first 1..5 bytes of a video message (inter frame, AVC end-of-sequence): shorter than
+	// any NAL list, yet not empty
+	Tiny int `json:"tiny,omitempty"`
 }
 
 type PubPlan struct {
@@ -72,7 +75,9 @@ type RtspIdlePlan struct {
 	Tcp       bool `json:"tcp"`
 	ActiveMs  int  `json:"active_ms"` // how long it keeps sending (one frame per second of simulated time)
 	WithAudio bool `json:"with_audio"`
-	Cons      int  `json:"cons"` // RTMP players attached meanwhile
+	Cons      int  `json:"cons"`             // RTMP players attached meanwhile
+	Push      bool `json:"push,omitempty"`   // a relay-push target is configured: its session must end with the publisher
+	Leaves    bool `json:"leaves,omitempty"` // the publisher leaves on its own after the active period instead of falling silent
 }
 
 // ---- generation ----------------------------------------------------------------------------------------------------------
@@ -85,6 +90,7 @@ type RelayProfile struct {
 	Republish      float64 // probability of a second incarnation on a stream
 	HeaderChange   float64 // probability per GOP of a mid-stream sequence header change
 	TsWeird        float64 // probability of odd timestamps (>= 0xFFFFFF, non-monotonic, wrap)
+	TinyVideo      float64 // probability that a non-key video message is only 1..5 bytes long
 	NalKinds       float64 // probability that a video frame also carries AUD / SEI / in-band parameter sets
 	BigUnits       float64 // probability of a large unit
 	ZeroLen        float64
@@ -193,7 +199,10 @@ func genUnits(r *sim.Rng, p *PubPlan, prof RelayProfile, n int) {
 			if r.Bool(0.2) {
 				u.Cts = int32(r.Intn(200))
 			}
-			if prof.NalKinds > 0 && r.Bool(prof.NalKinds) {
+			if prof.TinyVideo > 0 && !key && r.Bool(prof.TinyVideo) {
+				u.Tiny, u.Nals, u.Cts = 1+r.Intn(5), 0, 0
+			}
+			if prof.NalKinds > 0 && u.Tiny == 0 && r.Bool(prof.NalKinds) {
 				u.Extra = []string{"a", "s", "as", "p", "aps", "ps", "x", "sx", "apsx"}[r.Intn(9)]
 				if !key {
 					u.Extra = strings.ReplaceAll(u.Extra, "p", "")
